@@ -15,6 +15,8 @@ import (
 	"sync"
 	"time"
 
+	jose "github.com/go-jose/go-jose/v4"
+
 	"verif/harness/modelstore"
 	"verif/harness/opdrv"
 
@@ -78,6 +80,54 @@ type isoWorld struct {
 	epValues   map[*op.Endpoint]op.Endpoint // the Endpoint objects the defaults point to, by value
 	claims0    []string
 	scopes0    []string
+	// caller-owned interceptor chain, and a router that was built from it earlier
+	chain       []op.HttpInterceptor
+	chainRouter http.Handler
+	// a second provider: own storage, own signing key - whose key id happens to equal provider A's
+	provB  *op.Provider
+	storeB *modelstore.Store
+}
+
+// traceInterceptor marks the response with its name, in the order the interceptors run.
+func traceInterceptor(name string) op.HttpInterceptor {
+	return func(next http.Handler) http.Handler {
+		return http.HandlerFunc(func(w http.ResponseWriter, r *http.Request) {
+			w.Header().Add("X-Trace", name)
+			next.ServeHTTP(w, r)
+		})
+	}
+}
+
+func traceOf(h http.Handler) string {
+	rec := httptest.NewRecorder()
+	h.ServeHTTP(rec, httptest.NewRequest(http.MethodGet, opdrv.Issuer+"/healthz", nil))
+	return strings.Join(rec.Header().Values("X-Trace"), ">")
+}
+
+// signsWithOwnKey: the provider issues a JWT access token (client_credentials of cs) and the token verifies under the keys that provider publishes.
+func signsWithOwnKey(p *op.Provider) string {
+	r := isoReq(p, http.MethodPost, "/oauth/token", url.Values{"grant_type": {"client_credentials"}, "scope": {"api"}}, "cs")
+	var tr struct {
+		AccessToken string `json:"access_token"`
+	}
+	if r.Status != 200 || json.Unmarshal([]byte(r.Body), &tr) != nil || strings.Count(tr.AccessToken, ".") != 2 {
+		return "no JWT issued: " + r.Body
+	}
+	kr := isoReq(p, http.MethodGet, "/keys", nil, "")
+	var set jose.JSONWebKeySet
+	if json.Unmarshal([]byte(kr.Body), &set) != nil {
+		return "no key set"
+	}
+	jws, err := jose.ParseSigned(tr.AccessToken, []jose.SignatureAlgorithm{jose.ES256, jose.RS256})
+	if err != nil {
+		return "unparsable token"
+	}
+	for _, k := range set.Keys {
+		if _, err := jws.Verify(k); err == nil {
+			return "ownKeys"
+		}
+	}
+	return "signature does not verify under the keys this provider publishes"
 }
 
 var (
@@ -140,6 +190,14 @@ func isoSetup() {
 		if ep != nil {
 			iso.epValues[ep] = *ep
 		}
+	}
+	iso.chain = []op.HttpInterceptor{traceInterceptor("first"), traceInterceptor("second"), traceInterceptor("third")}
+	iso.chainRouter = op.CreateRouter(iso.provA, iso.chain...)
+	keyB := *modelstore.GenKey("c20-provider-b", jose.ES256)
+	keyB.KID = iso.store.Signing.KID
+	iso.storeB = modelstore.New(opdrv.BuildRegs(w), &keyB)
+	if _, iso.provB, err = opdrv.BuildProvider(iso.storeB, opdrv.DefaultCfg("P")); err != nil {
+		panic(err)
 	}
 	iso.claims0 = append([]string(nil), op.DefaultSupportedClaims...)
 	iso.scopes0 = append([]string(nil), op.DefaultSupportedScopes...)
@@ -226,8 +284,20 @@ func isoSnapshot() map[string]string {
 		s["storage.DeviceAuthorizationState"] = fmt.Sprintf("aud=%v len=%d scopes=%v client=%s", dv.State.Audience, len(dv.State.Audience), dv.State.Scopes, dv.State.ClientID)
 	}
 	iso.store.Unlock()
+	names := []string{}
+	for _, ic := range iso.chain {
+		names = append(names, traceOf(ic(http.NotFoundHandler())))
+	}
+	s["callerInterceptorChain"] = strings.Join(names, ",")
+	s["routerA2.interceptorOrder"] = traceOf(iso.chainRouter)
+	s["providerA.tokenSignature"] = signsWithOwnKey(iso.provA)
+	s["providerB.tokenSignature"] = signsWithOwnKey(iso.provB)
 	return s
 }
+
+// isoHealthy: cells with a value that must hold at any time, whatever ran before
+var isoHealthy = map[string]string{"providerA.tokenSignature": "ownKeys", "providerB.tokenSignature": "ownKeys",
+	"callerInterceptorChain": "first,second,third", "routerA2.interceptorOrder": "first>second>third"}
 
 func isoRestore() {
 	*op.DefaultEndpoints = iso.defaultEPs
@@ -243,6 +313,7 @@ func isoRestore() {
 		dv.State.Audience = nil
 	}
 	iso.store.Unlock()
+	iso.chain = []op.HttpInterceptor{traceInterceptor("first"), traceInterceptor("second"), traceInterceptor("third")}
 }
 
 var customOpt = map[string]func() op.Option{
@@ -275,7 +346,7 @@ func isoExec(name string) {
 	switch {
 	case name == "op.NewProvider":
 		isoNewProvider()
-	case strings.HasPrefix(name, "op.NewProvider+"):
+	case customOpt[name] != nil:
 		p, err := op.NewProvider(&op.Config{CryptoKey: opdrv.CryptoKey}, iso.store, op.StaticIssuer(opdrv.Issuer), customOpt[name]())
 		if err == nil {
 			isoReq(p, http.MethodGet, "/.well-known/openid-configuration", nil, "")
@@ -297,6 +368,17 @@ func isoExec(name string) {
 		isoReq(h, http.MethodGet, "/userinfo", nil, "")
 		isoReq(h, http.MethodPost, "/revoke", url.Values{"token": {"x"}}, "cw")
 		isoReq(h, http.MethodGet, "/end_session", nil, "")
+	case name == "op.CreateRouter(callerChain)":
+		traceOf(op.CreateRouter(iso.provA, iso.chain...))
+	case name == "op.NewProvider+WithHttpInterceptors(callerChain)":
+		p, err := op.NewProvider(&op.Config{CryptoKey: opdrv.CryptoKey}, iso.store, op.StaticIssuer(opdrv.Issuer), op.WithHttpInterceptors(iso.chain...))
+		if err == nil {
+			traceOf(p)
+		}
+	case name == "providerA.issueJWT":
+		signsWithOwnKey(iso.provA)
+	case name == "providerB.issueJWT":
+		signsWithOwnKey(iso.provB)
 	case name == "provider.devicePoll":
 		isoReq(iso.provA, http.MethodPost, "/oauth/token", url.Values{"grant_type": {"urn:ietf:params:oauth:grant-type:device_code"}, "device_code": {iso.dcRaw}}, "cd")
 		isoReq(iso.legacyA, http.MethodPost, "/oauth/token", url.Values{"grant_type": {"urn:ietf:params:oauth:grant-type:device_code"}, "device_code": {iso.dcRaw}}, "cd")
@@ -348,7 +430,7 @@ func IsolationCase(c *Case) M {
 	defer isoMu.Unlock()
 	isoOnce.Do(isoSetup)
 	prog := SS(c.C, "prog")
-	o := M{"changed": []string{}, "races": 0, "panic": false}
+	o := M{"changed": []string{}, "unhealthy": []string{}, "races": 0, "panic": false}
 	isoRestore()
 	before := isoSnapshot()
 	if !reflect.DeepEqual(before, iso.pristine) {
@@ -397,6 +479,15 @@ func IsolationCase(c *Case) M {
 	}
 	sort.Strings(changed)
 	o["changed"] = changed
+	unhealthy := []string{}
+	for k, want := range isoHealthy {
+		if after[k] != want {
+			unhealthy = append(unhealthy, k)
+			o["is:"+k] = after[k]
+		}
+	}
+	sort.Strings(unhealthy)
+	o["unhealthy"] = unhealthy
 	if raceLogSize() > r0 {
 		o["races"] = 1
 	}
